@@ -16,16 +16,17 @@ import (
 
 // searchCfg is one search configuration, applied identically to the real search and to M-search.
 type searchCfg struct {
-	depth     int
-	selective int // 0 = full exploration; k>=2: drop moves with h(m)%k==0 (the first legal move is always kept)
-	selSeed   uint64
-	quiesce   bool   // leaf = quiescence over captures (and promotions) instead of the static evaluation
-	evalSeed  uint64 // piece-square perturbation
-	prioSeed  uint64 // 0 = MVV-LVA ordering, else a seeded arbitrary ordering
+	depth         int
+	selective     int  // 0 = full exploration; k>=2: drop moves with h(m)%k==0 (the first legal move is always kept unless selMayDropAll)
+	selMayDropAll bool // the exploration may select no move at all at a node (minimax over an empty set = lost)
+	selSeed       uint64
+	quiesce       bool   // leaf = quiescence over captures (and promotions) instead of the static evaluation
+	evalSeed      uint64 // piece-square perturbation
+	prioSeed      uint64 // 0 = MVV-LVA ordering, else a seeded arbitrary ordering
 }
 
 func (c searchCfg) String() string {
-	return fmt.Sprintf("depth=%d selective=%d quiesce=%v evalSeed=%d prioSeed=%d", c.depth, c.selective, c.quiesce, c.evalSeed, c.prioSeed)
+	return fmt.Sprintf("depth=%d selective=%d(mayDropAll=%v) quiesce=%v evalSeed=%d prioSeed=%d", c.depth, c.selective, c.selMayDropAll, c.quiesce, c.evalSeed, c.prioSeed)
 }
 
 func hmix(x uint64) uint64 {
@@ -77,6 +78,9 @@ func (c searchCfg) keep(p *rules.Pos, m rules.Move) bool {
 	}
 	if moveHash(c.selSeed, m)%uint64(c.selective) != 0 {
 		return true
+	}
+	if c.selMayDropAll {
+		return false
 	}
 	legal := p.LegalMoves()
 	return len(legal) > 0 && legal[0] == m
@@ -348,7 +352,11 @@ func (c *countingCtx) Err() error {
 type Cfg struct{ c searchCfg }
 
 // DrawCfg draws a configuration suited to the position (depth bounded by the reference budget).
-func DrawCfg(t *tape.Tape, p *rules.Pos) Cfg { return Cfg{drawCfg(t, p)} }
+func DrawCfg(t *tape.Tape, p *rules.Pos) Cfg {
+	c := drawCfg(t, p)
+	c.selMayDropAll = false
+	return Cfg{c}
+}
 
 func (c Cfg) String() string { return c.c.String() }
 func (c Cfg) MaxDepth() int  { return c.c.depth }
